@@ -38,13 +38,19 @@ func mkSchema() *graphql.Schema {
 		"obj":  {Type: obj, Arguments: args, Resolve: nop},
 		"list": {Type: graphql.NewListType(obj), Cost: func(graphql.FieldCostContext) graphql.FieldCost { return graphql.FieldCost{Resolver: 1, Multiplier: 2} }, Resolve: nop},
 	}
-	query := &graphql.ObjectType{Name: "Query", Fields: map[string]*graphql.FieldDefinition{}}
-	for k, v := range obj.Fields {
-		query.Fields[k] = v
+	// the three root types have the fields of Obj: every family can be put under every operation type
+	root := func(name string) *graphql.ObjectType {
+		t := &graphql.ObjectType{Name: name, Fields: map[string]*graphql.FieldDefinition{}}
+		for k, v := range obj.Fields {
+			t.Fields[k] = v
+		}
+		return t
 	}
 	s, err := graphql.NewSchema(&graphql.SchemaDefinition{
-		Directives: map[string]*graphql.DirectiveDefinition{"skip": graphql.SkipDirective, "include": graphql.IncludeDirective},
-		Query:      query,
+		Directives:   map[string]*graphql.DirectiveDefinition{"skip": graphql.SkipDirective, "include": graphql.IncludeDirective},
+		Query:        root("Query"),
+		Mutation:     root("Mutation"),
+		Subscription: root("Subscription"),
 	})
 	if err != nil {
 		panic(err)
@@ -71,6 +77,11 @@ type family struct {
 	// budget; exponential code cannot finish the larger ones at all.
 	quick, thorough []int
 	cost            bool // run with the cost rule
+	// valid: every document of the family is valid — any validation error at any size is a failure
+	// (a limit that counts breadth shows up as a verdict that changes with the width)
+	valid bool
+	// cyclic: every document has a fragment cycle — it must be reported as such, by an ordinary error
+	cyclic bool
 }
 
 func rep(n int, f func(i int) string) string {
@@ -126,7 +137,7 @@ var families = []family{
 				fmt.Fprintf(&b, "fragment F%d on Obj { o { ...F%d } o { ...F%d } }\n", i, (i+1)%n, (i+1)%n)
 			}
 			return b.String()
-		}, quick: []int{1, 2, 10, 40}, thorough: []int{1, 2, 10, 40, 160}},
+		}, quick: []int{1, 2, 10, 40}, thorough: []int{1, 2, 10, 40, 160}, cyclic: true},
 	{name: "cost-double-spread-chain", about: "F-12c: every fragment spreads the next one twice; the cost walk re-expands a fragment at every spread",
 		gen: doubleSpreadChain, quick: []int{0, 1, 2, 3, 4, 8, 12, 16, 40}, thorough: []int{0, 1, 2, 3, 4, 8, 12, 16, 18, 40, 80}, cost: true},
 	{name: "nocost-double-spread-chain", about: "the same documents without the cost rule (isolates the cost walk)",
@@ -180,7 +191,7 @@ var families = []family{
 				fmt.Fprintf(&b, "fragment F%d on Query { x ...F%d ...F%d }\n", i, (i+1)%n, (i+n-1)%n)
 			}
 			return b.String()
-		}, quick: []int{2, 10, 30, 60}, thorough: []int{2, 10, 30, 60, 120}, cost: true},
+		}, quick: []int{2, 10, 30, 60}, thorough: []int{2, 10, 30, 60, 120}, cost: true, cyclic: true},
 	{name: "deep-selection-nesting", about: "selection sets nested n deep (n below the parser limit)",
 		gen: func(n int) string {
 			return "{ " + rep(n, func(int) string { return "o { " }) + "x" + strings.Repeat(" }", n) + " }"
